@@ -13,7 +13,6 @@ import (
 	"math/rand"
 	"net"
 	"net/http"
-	"net/http/httptest"
 	"net/netip"
 	"net/url"
 	"strings"
@@ -327,11 +326,13 @@ func c16Calibrate(t *testing.T, r *c16Runner) {
 	mux := http.NewServeMux()
 	mux.HandleFunc("/dns-query", prx.ServeHTTP)
 	mux.HandleFunc("/dns-query/", prx.ServeHTTP)
-	dohTLS := httptest.NewUnstartedServer(mux)
-	dohTLS.TLS = &tls.Config{Certificates: []tls.Certificate{cert}}
-	dohTLS.StartTLS()
+	dohTLS, dohPlain := c16HTTPServer(mux, &cert), c16HTTPServer(mux, nil)
+	if dohTLS == nil || dohPlain == nil {
+		rep.Inconcl("calibration: cannot start the web-server side of DoH")
+
+		return
+	}
 	defer dohTLS.Close()
-	dohPlain := httptest.NewServer(mux)
 	defer dohPlain.Close()
 
 	dotAddr := prx.Addr(proxy.ProtoTLS).String()
